@@ -2,7 +2,7 @@
    (case ID (pool (SYMHEX PREC)...) (opts REAL STATE QUERY BASIS KP KD KT FLAT DEPTH EMPTY)
             (posts (XACT PAYEEHEX XSTATE PSTATE (SEGHEX...) VIRTUAL AMT COST)...))
    AMT = (NUM DEN PREC KEEP COMMHEX) ; COST = AMT | none ; STATE = any|cleared|uncleared|pending ;
-   QUERY = none | (acct HEX) | (payee HEX) ; DEPTH = none | N ; x/p state = u|p|c
+   QUERY = none | ((acct HEX)|(payee HEX) ...) ; DEPTH = none | N ; x/p state = u|p|c
    Output lines "ID <kind> ..." (see harness/props/c05.py). *)
 let err_name = function
   | EDivZero -> "DivZero" | EDiffComm -> "DiffComm" | ENullAmt -> "NullAmt"
@@ -45,8 +45,10 @@ let opts_of = function
     { o_real = batom real;
       o_state = (match atom st with "any" -> SAny | "cleared" -> SCleared | "uncleared" -> SUncleared
                                   | "pending" -> SPending | _ -> failwith "stfilter");
-      o_query = (match q with A "none" -> QNone | L [A "acct"; h] -> QAcct (hexs (atom h))
-                            | L [A "payee"; h] -> QPayee (hexs (atom h)) | _ -> failwith "query");
+      o_query = (match q with
+          | A "none" -> []
+          | L ts -> List.map (function L [A "acct"; h] -> QAcct (hexs (atom h))
+                                     | L [A "payee"; h] -> QPayee (hexs (atom h)) | _ -> failwith "query") ts);
       o_basis = batom basis; o_kp = batom kp; o_kd = batom kd; o_kt = batom kt;
       o_flat = batom flat;
       o_depth = (match depth with A "none" -> None | d -> Some (zatom d));
@@ -83,7 +85,7 @@ let output ord cp o ps want =
       (* account_t::amount of every account of the tree (pre-order) *)
       let m = get (mark (max_depth ps) ord cp o ps []) in
       List.iter (fun (a, _) ->
-          let v = simplified_or_zero (get (own_of ord o ps a)) in
+          let v = simplified_or_zero (get (own_lazy_twice ord o ps a)) in
           add (Printf.sprintf "own %s|%s" (name_of a) (show_value v))) m.m_pre
     end;
     if has "col" then begin
